@@ -13,7 +13,7 @@ mkdir -p $out/evidence
 export VERIF_REPO=$wt VERIF_OUT=$out VERIF_EVIDENCE_DIR=$out/evidence
 dirs=""
 if [ $# -gt 0 ]; then for i in "$@"; do for d in /verif/seeded/$i /verif/selftest/mutants/$i; do [ -d $d ] && dirs="$dirs $d"; done; done
-else dirs=$(ls -d /verif/seeded/* /verif/selftest/mutants/* 2>/dev/null); fi
+else dirs=$(ls -d /verif/seeded/*/ /verif/selftest/mutants/*/ 2>/dev/null); fi
 missed=0
 for d in $dirs; do
   id=$(basename $d)
